@@ -51,6 +51,14 @@ def _corruptions(sessions):
 
     def isf(e):
         return e["e"] == "f"
+
+    def compressed(L, k):
+        """the message frame k belongs to has RSV1 on its first frame"""
+        while k > 0:
+            if isf(L[k]) and L[k]["op"] in (1, 2):
+                return L[k]["r1"] == 1
+            k -= 1
+        return False
     specs = [
         ("mask bit flipped on a frame", lambda L, k, e: isf(e), lambda L, k: L[k].update(m=1 - L[k]["m"]), True),
         ("16-bit length form on a frame of at most 125 bytes", lambda L, k, e: isf(e) and e["form"] == 7 and e["op"] in (1, 2),
@@ -58,15 +66,19 @@ def _corruptions(sessions):
         ("64-bit length form on a frame of at most 65535 bytes", lambda L, k, e: isf(e) and e["form"] == 16,
          lambda L, k: L[k].update(form=64), True),
         ("RSV1 set on a continuation frame", lambda L, k, e: isf(e) and e["op"] == 0, lambda L, k: L[k].update(r1=1), True),
-        ("RSV1 cleared on the first frame of a compressed message", lambda L, k, e: isf(e) and e["op"] in (1, 2) and e["r1"] == 1,
-         lambda L, k: L[k].update(r1=0), True),
+        # RSV1 says how the payload is to be read (RFC 7692 6: the sender chooses per message): cleared on a single-frame
+        # compressed message, the tokenizer reports the compressed octets as they are - not the message
+        ("RSV1 cleared on the only frame of a compressed message", lambda L, k, e: isf(e) and e["op"] in (1, 2) and e["r1"] == 1 and e["fin"] == 1,
+         lambda L, k: L[k].update(r1=0, ieq=False, ilen=L[k]["len"]), True),
+        ("RSV1 set on a message for which permessage-deflate is not in force", lambda L, k, e: isf(e) and e["op"] in (1, 2) and e["r1"] == 0 and not L[0]["msgs"][0]["z"] and k == 1,
+         lambda L, k: L[k].update(r1=1), True),
         ("FIN cleared on the last frame of a message", lambda L, k, e: isf(e) and e["op"] in (0, 1, 2) and e["fin"] == 1,
          lambda L, k: L[k].update(fin=0), False),
         ("FIN set on a non-final fragment", lambda L, k, e: isf(e) and e["op"] in (1, 2) and e["fin"] == 0,
          lambda L, k: L[k].update(fin=1, ieq=False, ilen=L[k]["len"], last=0), True),
         ("reassembled payload differs from the message", lambda L, k, e: isf(e) and e.get("ieq") is True,
          lambda L, k: L[k].update(ieq=False), True),
-        ("deflate tail 00 00 ff ff left on a compressed message", lambda L, k, e: isf(e) and e.get("ieq") is True and L[0]["msgs"] and all(m["z"] for m in L[0]["msgs"]),
+        ("deflate tail 00 00 ff ff left on a compressed message", lambda L, k, e: isf(e) and e.get("ieq") is True and compressed(L, k),
          lambda L, k: L[k].update(last=255), True),
         ("the application wrote one byte more than was sent", lambda L, k, e: e["e"] == "reset" and len(e["msgs"]) > 0,
          lambda L, k: L[0]["msgs"][-1].update(size=L[0]["msgs"][-1]["size"] + 1), False),
